@@ -314,3 +314,8 @@ impl<'a, B: Clone> Cow<'a, B> {
 /// version/variant bits set; nothing is promised about the value.
 #[verifier::external_body]
 pub fn uuid_new_v4() -> (r: Uuid) { unimplemented!() }
+
+/// `Option::or` (core/src/option.rs): "Returns the option if it contains a
+/// value, otherwise returns optb."
+pub assume_specification<T> [Option::<T>::or] (a: Option<T>, b: Option<T>) -> (r: Option<T>)
+    ensures r == (if a is Some { a } else { b });
